@@ -1175,7 +1175,7 @@ def main(tier, seed):
                      "amaranth.sim._pyrtl compiled processes"]
     rep.bounds = {"pair_designs": sum(1 for j in jobs if j["what"] == "pair"), "engine_scenarios": "5 hand-written + 10 (quick) / 200 (thorough) generated (two clock domains with seeded phases/periods, child fragment, up to two processes, two testbench scripts of <= 6 and <= 4 operations)", "orders_per_scenario": "all n! for n <= 4 processes, else identity, reverse and seeded random orders "
                   "(12 quick / 120 thorough), each also with the pending-set and trigger-set orders reversed", "time": "phase, half period, delays < 2**16 fs; clock alone: 6 (quick) / 10 (thorough) toggles; clock with two chained delays: 2 / 4 toggles, both delays expiring no later than the last observed toggle",
-                  "outside": "odd periods (the half period is floor(period/2)); float arithmetic inside Period(...); VCD writers; more than two testbenches"}
+                  "outside": "odd periods (the half period is floor(period/2)); float arithmetic inside Period(...); VCD writers; more than three testbenches"}
     rep.stubs = ["HSignalState / HMemoryState (proved equal to the genuine classes by the state-class obligations)", "amaranth.sim._async.Const.cast on proxies (identity on the value)",
                  "Period objects built from integer femtoseconds", "engine containers replaced by ordered sets to inject iteration orders"]
     rep.assumptions = ["period even", "pre-state of the pairwise obligations is arbitrary (next == curr, empty write queues): a superset of the reachable delta-cycle states"]
